@@ -205,3 +205,41 @@ def import_everything():
     import dateutil.relativedelta  # noqa
     import openpyxl  # noqa
     return excel2pycl
+
+
+# ----------------------------------------------------------------------------------------------
+# process-global settings of the standard library that an embedding application may have changed.
+# A run applies them inside its forked child (nothing leaks), the references keep the defaults.
+
+def gen_env(seed):
+    """Drawn from its own stream, so adding a knob never shifts a plan's other draws."""
+    r = rng(seed, 'process-env')
+    env = {}
+    if r.random() < 0.4:
+        env['firstweekday'] = r.choice([6, 6, 5, 3, 1])            # calendar.setfirstweekday (US-style calendars: SUNDAY)
+    if r.random() < 0.25:
+        env['decimal'] = r.choice([[6, 'ROUND_DOWN'], [3, 'ROUND_CEILING'], [28, 'ROUND_HALF_UP']])
+    if r.random() < 0.15:
+        env['warnings'] = 'always'                                  # every warning shown every time (never 'error')
+    return env
+
+
+def apply_env(env):
+    fired = {}
+    if not env:
+        return fired
+    if 'firstweekday' in env:
+        import calendar
+        calendar.setfirstweekday(env['firstweekday'])
+        fired['env_calendar_firstweekday_changed'] = 1
+    if 'decimal' in env:
+        import decimal
+        ctx = decimal.getcontext()
+        ctx.prec = env['decimal'][0]
+        ctx.rounding = getattr(decimal, env['decimal'][1])
+        fired['env_decimal_context_changed'] = 1
+    if env.get('warnings'):
+        import warnings
+        warnings.simplefilter(env['warnings'])
+        fired['env_warnings_filter_changed'] = 1
+    return fired
